@@ -234,6 +234,14 @@ impl std::ops::Deref for Tagged<'_> {
 /// `qr_svg(content, options)` must be the level given through the options, and Q when none is given - whatever the
 /// other options (shape, margin, embedded image, forced version) are. The matrix is recovered from the exported bytes /
 /// from the drawn sub-paths of the SVG and its format information is decoded with the reference BCH code.
+#[cfg(not(fast_qr_verif))]
+pub fn check_wasm(_c: &WasmCase, obs: &mut Obs) -> Result<(), Fail> {
+    // the pass over fast_qr built WITHOUT the verification flag has no host-compiled wasm module
+    obs.label("wasm_entry_points:not_in_the_plain_build");
+    Ok(())
+}
+
+#[cfg(fast_qr_verif)]
 pub fn check_wasm(c: &WasmCase, obs: &mut Obs) -> Result<(), Fail> {
     use fast_qr::verif_wasm_host as wasm;
     let level_of_matrix = |vals: &[bool], n: usize| -> Option<(Level, u8)> {
